@@ -369,8 +369,11 @@ def run(scn, want=(), fault=None, script=None, fit_faults=None, probe_limit=True
                         buffer=options["buffer_ntrain"], gp_radius=options["gp_radius"])
             log = snap_log(function_logger)
             ncalls_before = len(tr.calls)
+            ev0 = len(tr.events)
+            before = snap_gp(gp)
             out = _o(gp, current_point, function_logger, options, optim_state, iteration_history, refit_flag)
-            tr.events.append(dict(type="local_fit", metric=metric, centre=centre, opts=opts, log=log, ncalls_at=ncalls_before,
+            nfail = sum(1 for x in tr.events[ev0:] if x.get("type") in ("fit_error", "fit_fault"))
+            tr.events.append(dict(type="local_fit", metric=metric, centre=centre, opts=opts, log=log, ncalls_at=ncalls_before, fit_failures=nfail, before=before, exit_flag=_f(out[1]),
                                   gp=snap_gp(out[0]), refit=bool(refit_flag), phase=tr.phase, lb=np.array(optim_state["lb"]),
                                   ub=np.array(optim_state["ub"])))
             return out
@@ -427,7 +430,12 @@ def run(scn, want=(), fault=None, script=None, fit_faults=None, probe_limit=True
             if s2 is not None:
                 self.s2 = s2
             raise np.linalg.LinAlgError(f"injected GP.fit failure #{i}")
-        return orig_fit(self, *a, **k)
+        try:
+            return orig_fit(self, *a, **k)
+        except Exception as e:  # noqa: BLE001
+            # a fit that fails on its own (numerically singular covariance): the retry may thin the training set
+            tr.events.append(dict(type="fit_error", i=i, exc=type(e).__name__, phase=tr.phase))
+            raise
 
     pairs.append((GP, "fit", w_fit))
 
